@@ -72,6 +72,7 @@ def build():
         add('once_block_block', 'once_basic.c', ['caller_block', 'caller_block', 'final_check'], R, ONCE_UNITS, nfinal=1, excl=ONLY_MU, extra=BIG, timeout=3000)
         add('once_block_spin', 'once_basic.c', ['caller_block', 'caller_spin', 'final_check'], R, ONCE_UNITS, nfinal=1, excl=ONLY_MU, extra=BIG, timeout=3000)
         add('once_spin_argspin', 'once_basic.c', ['caller_spin', 'caller_arg_spin', 'final_check'], R, ONCE_UNITS, nfinal=1, excl=ONLY_MU, extra=BIG, timeout=3000)
+        add('once_nested_block', 'once_basic.c', ['caller_nested', 'caller_block', 'final_check'], R, ONCE_UNITS, nfinal=1, excl=ONLY_MU, extra=BIG, timeout=6000)
         add('once_nested', 'once_basic.c', ['caller_nested', 'caller_nested', 'final_check_b'], R, ONCE_UNITS, nfinal=1, excl=ONLY_MU, extra=BIG, timeout=6000)
         add('once_arg_twice', 'once_basic.c', ['caller_arg', 'caller_twice', 'final_check'], R, ONCE_UNITS, nfinal=1, excl=ONLY_MU, extra=BIG, timeout=3000)
         add('once_block_block_other', 'once_basic.c', ['caller_block', 'caller_block', 'caller_other', 'final_check_b'], R, ONCE_UNITS, nfinal=1, excl=ONLY_MU, extra=BIG, timeout=6000)
@@ -90,11 +91,11 @@ def build():
     NOEXP = {'exclude_calls': [['nsync_note_notified_deadline_', 'notify']], 'max_rec': 3}
     for R in (3, 4):
         add('note_notifyroot_waitchild', 'note_basic.c', ['notify_root', 'wait_child', 'setup_pair', 'final_pair_notified'], R, CV_UNITS, ninit=1, nfinal=1, pools=dict(NOTE), extra=NOEXP, defines=['VF_FROZEN_CLOCK'], excl=CTR_FN + CVW_FN, timeout=6000)
-        add('note_notifyroot_pollchild', 'note_basic.c', ['notify_root', 'poll_child', 'setup_pair', 'final_pair_notified'], R, CV_UNITS, ninit=1, nfinal=1, pools=dict(NOTE), extra=NOEXP, defines=['VF_FROZEN_CLOCK'], excl=CTR_FN + CVW_FN, timeout=6000)
+        add('note_notifyroot_pollchild', 'note_basic.c', ['notify_root', 'poll_child', 'setup_pair', 'final_pair_notified'], R, CV_UNITS, ninit=1, nfinal=1, optional=True, pools=dict(NOTE), extra=NOEXP, defines=['VF_FROZEN_CLOCK'], excl=CTR_FN + CVW_FN, timeout=6000)
         add('note_notifyroot_notifychild', 'note_basic.c', ['notify_root', 'notify_child', 'setup_tree', 'final_tree_notified'], R, CV_UNITS, ninit=1, nfinal=1, pools=dict(NOTE), extra=NOEXP, defines=['VF_FROZEN_CLOCK'], excl=CTR_FN + CVW_FN, timeout=6000)
         add('note_notifychild_siblings', 'note_basic.c', ['notify_child', 'poll_child', 'setup_pair', 'final_siblings'], R, CV_UNITS, ninit=1, nfinal=1, pools=dict(NOTE), extra=NOEXP, defines=['VF_FROZEN_CLOCK'], excl=CTR_FN + CVW_FN, timeout=6000)
         add('note_newunderroot_notifyroot', 'note_basic.c', ['new_under_root', 'notify_root', 'setup_pair', 'final_new_child_notified'], R, CV_UNITS, ninit=1, nfinal=1, pools=dict(NOTE), extra=NOEXP, defines=['VF_FROZEN_CLOCK'], excl=CTR_FN + CVW_FN, timeout=6000)
-        add('note_freechild_notifyroot', 'note_basic.c', ['free_child', 'notify_root', 'setup_tree', 'final_after_free_child'], R, CV_UNITS, ninit=1, nfinal=1, pools=dict(NOTE), extra=NOEXP, defines=['VF_FROZEN_CLOCK'], excl=CTR_FN + CVW_FN, timeout=6000)
+        add('note_freechild_notifyroot', 'note_basic.c', ['free_child', 'notify_root', 'setup_tree', 'final_after_free_child'], R, CV_UNITS, ninit=1, nfinal=1, optional=True, pools=dict(NOTE), extra=NOEXP, defines=['VF_FROZEN_CLOCK'], excl=CTR_FN + CVW_FN, timeout=6000)
         add('note_freegrand_freechild', 'note_basic.c', ['free_grand', 'free_child', 'setup_tree', 'final_siblings'], R, CV_UNITS, ninit=1, nfinal=1, pools=dict(NOTE), extra=NOEXP, defines=['VF_FROZEN_CLOCK'], excl=CTR_FN + CVW_FN, timeout=6000)
     # ---- wait_n
     WN = {'note': {'type': 'struct.nsync_note_s_', 'count': 1}, 'counter': {'type': 'struct.nsync_counter_s_', 'count': 1},
@@ -163,6 +164,13 @@ def build():
             unroll={'*': U, 'nchildren': 4, 'note_notify_child': 3}, defines=['VF_FROZEN_CLOCK'], timeout=1800)
         add('af_counter_U%d' % U, 'alloc_fail.c', ['h_counter'], 1, CV_UNITS, pools={'counter': {'type': 'struct.nsync_counter_s_', 'count': 1}}, extra=AF, excl=NOTE_FN + CVW_FN,
             unroll={'*': U}, defines=['VF_FROZEN_CLOCK'], timeout=600)
+    add('ns_cv_registration', 'waitn_basic.c', ['h_cv_registration'], 1, CV_UNITS, excl=NOTE_FN + CTR_FN + ['nsync_wait_n'], unroll={'*': 3}, timeout=600)
+    # ---- C08 / C09 sequential half (single thread, one context)
+    NS = {'exclude_calls': [['nsync_note_notified_deadline_', 'notify']], 'max_rec': 3}
+    for fn in ['h_expiry', 'h_notify_child', 'h_notify_root', 'h_new_under_notified', 'h_free_adopt']:
+        add('ns_' + fn, 'note_seq.c', [fn], 1, CV_UNITS, optional=(fn in ('h_notify_root', 'h_free_adopt')), pools={'note': {'type': 'struct.nsync_note_s_', 'count': 4}}, extra=NS,
+            excl=CTR_FN + CVW_FN + ['nsync_mu_lock_slow_', 'nsync_mu_unlock_slow_', 'nsync_sem_wait_with_cancel_', 'mu_try_acquire_after_timeout_or_cancel'],
+            unroll={'*': 2, 'note_notify_child#0': 1, 'note_notify_child#1': 3, 'nsync_note_free#0': 2}, defines=['VF_FROZEN_CLOCK'], timeout=3000)
     # ---- E2: thread-modular step checks (one thread + environment), see harness/e3/e2_word.c
     E2U = CV_UNITS + ['internal/debug.c']
     E2X = {'atomic_hooks': {'pre': 'vf_env', 'write': 'vf_guar'}, 'noop': ['emit_print', 'emit_c'], 'max_cells': 400, 'tls_init': {'waiter_for_thread': ['MEW']}}
